@@ -104,6 +104,40 @@ func genNodeCase(seed uint64, tier, focus, variant string) *simk.Case {
 		return c
 	}
 
+	// C13 template (replicating algorithms): a bundle received from P for a destination D that is a connected
+	// peer; the direct delivery to D fails, D leaves, and retry ticks fire while P (and possibly others) stay
+	// connected: the failed direct delivery must not make P - or an earlier recipient - eligible again
+	if focus == "C13" && np >= 2 && algo != "dtlsr" && algo != "prophet" && r.Bool(0.2) {
+		ex.Bundles = ex.Bundles[:0]
+		sp := genSpec(r, 0, np, focus, algo)
+		pp, dd := 1, 2
+		if r.Bool(0.5) {
+			pp, dd = 2, 1
+		}
+		sp.Src, sp.Prev, sp.Seq, sp.CT, sp.AgeMs, sp.HopLimit, sp.Unknown, sp.Flags, sp.ReportTo = "dtn://s1/app", pp, 1, "now", -1, -1, nil, 0, ""
+		sp.Dst = fmt.Sprintf("dtn://p%d/svc", dd)
+		sp.LifeMs = 7200000
+		if algo == "binary_spray" {
+			sp.Spray = r.Pick(2, 4, 5, 8)
+		}
+		ex.Bundles = append(ex.Bundles, sp)
+		for p := 1; p <= np; p++ {
+			if p != dd && (p == pp || r.Bool(0.5)) {
+				c.Ops = append(c.Ops, simk.Op{K: "peer_up", P: p})
+			}
+		}
+		c.Ops = append(c.Ops, simk.Op{K: "peer_up", P: dd}, simk.Op{K: "set_fail", N: 100}, simk.Op{K: "deliver", B: 0, P: pp},
+			simk.Op{K: "set_fail", N: 0}, simk.Op{K: "peer_down", P: dd})
+		for k := r.Range(1, 3); k > 0; k-- {
+			c.Ops = append(c.Ops, simk.Op{K: "advance", N: int64(r.Range(10500, 12000))})
+			if r.Bool(0.3) {
+				c.Ops = append(c.Ops, simk.Op{K: "peer_up", P: r.Range(1, np)})
+			}
+		}
+		c.Cfg["extra"] = ex
+		return c
+	}
+
 	// C13 x PRoPHET template: several peers qualify for one bundle in the same selection round
 	// (each advertised a higher predictability for its destination), then the bundle is dispatched again
 	if focus == "C13" && algo == "prophet" && r.Bool(0.4) {
